@@ -325,9 +325,167 @@ static void flts(uint64_t seed)
     }
 }
 
+// ---------------------------------------------------------------- pow(x, n) over the whole range of every exponent type
+// Exponents are drawn over all magnitudes of the integer type E (one-bit, all-ones-below, random, MIN/MAX).  Oracles that
+// are exact for ANY exponent:
+//   integer base: modular square-and-multiply in 128-bit arithmetic (n >= 0);
+//   floating base +-2^k (k in -2..2) and +-1: the result is +-2^(k*n) exactly when that is a normal number, and must
+//   saturate on the right side (inf / >= MAX/16 with the right sign, or magnitude <= 16*MIN) when it is not;
+//   floating base 1 +- 2^-j with |n| <= 2^20: exp(n*log1p(d)) in long double within (|n| + 8) eps (the inherent error
+//   of square-and-multiply).
+// In every case the batch lane must equal the scalar result bit for bit (same multiplication sequence).
+template <class E>
+static E wide_exponent(Rng& r, int& cls)
+{
+    using UE = typename std::make_unsigned<E>::type;
+    const int B = sizeof(E) * 8;
+    uint64_t k = r.next();
+    int sel = (int)(k % 8);
+    int bit = (int)((k >> 8) % B);
+    UE u;
+    switch (sel)
+    {
+    case 0: u = (UE)((UE)1 << bit); break;
+    case 1: u = (UE)(((UE)1 << bit) | (UE)(r.next() & (((UE)1 << bit) - 1))); break;
+    case 2: u = (UE)(((UE)1 << bit) + 1); break;
+    case 3: u = (UE)(((UE)1 << bit) - 1); break;
+    case 4: u = (UE)(r.next() % 70); break;
+    case 5: u = (UE)std::numeric_limits<E>::max(); break;
+    case 6: u = (UE)std::numeric_limits<E>::min(); break;
+    default: u = (UE)r.next(); break;
+    }
+    E e;
+    memcpy(&e, &u, sizeof e);
+    if (std::is_signed<E>::value && (r.next() & 1) && e != std::numeric_limits<E>::min())
+        e = (E)(0 - e);
+    cls = sel * 64 + bit;
+    return e;
+}
+template <class T, class E>
+static void pow_wide_int(uint64_t seed)
+{
+    using B = xs::batch<T, ARCH>;
+    static OpStat& st = reg("C17", (std::string("pow_") + tname<E>() + "_exponent").c_str(), tname<T>());
+    if (!st.on)
+        return;
+    Rng rng(mix(seed, 1717 + strhash(tname<T>()) * 31 + strhash(tname<E>())));
+    long iters = budget(4000, 200000);
+    for (long it = 0; it < iters; ++it)
+    {
+        int ca, ce;
+        T a = hostile<T>(rng, ca);
+        E e = wide_exponent<E>(rng, ce);
+        if (e < 0)
+            continue; // integer base, negative exponent: 1 / r, not claimed
+        u128 base = (u128)(typename std::make_unsigned<T>::type)a, p = 1;
+        typename std::make_unsigned<E>::type n = (typename std::make_unsigned<E>::type)e;
+        while (n)
+        {
+            if (n & 1)
+                p *= base;
+            base *= base;
+            n >>= 1;
+        }
+        T want = wrapu<T>(p);
+        mark_case("pow_wide", tname<T>(), &a, sizeof a);
+        T got = (T)xs::pow(a, e);
+        T lane = (T)xs::pow(B(a), e).get(0);
+        st.evals++;
+        st.cell((unsigned)(ce << 4 | (ca & 15)));
+        if (got != want || lane != got)
+            viol(st, "unclassified", "{\"x\":\"" + hexv(a) + "\",\"exponent\":" + std::to_string((long long)e) + ",\"exponent_type\":\"" + tname<E>() + "\",\"scalar\":\"" + hexv(got) + "\",\"batch_lane0\":\"" + hexv(lane) + "\",\"modular_power\":\"" + hexv(want) + "\"}");
+    }
+}
+template <class T, class E>
+static void pow_wide_fp(uint64_t seed)
+{
+    using B = xs::batch<T, ARCH>;
+    using L = std::numeric_limits<T>;
+    static OpStat& st = reg("C17", (std::string("pow_") + tname<E>() + "_exponent").c_str(), tname<T>());
+    if (!st.on)
+        return;
+    Rng rng(mix(seed, 1719 + sizeof(T) * 31 + strhash(tname<E>())));
+    long iters = budget(4000, 200000);
+    for (long it = 0; it < iters; ++it)
+    {
+        int ce;
+        E e = wide_exponent<E>(rng, ce);
+        const long double n = (long double)e;
+        int mode = (int)(rng.next() % 3);
+        T a;
+        long double exact = 0;
+        bool have_exact = false;   // exact result known and a normal number
+        int sat = 0;               // +1 / -1: must overflow with that sign; 2: must underflow towards zero
+        long double tol = 0;
+        if (mode < 2)
+        {
+            int k = (int)(rng.next() % 5) - 2; // base +-2^k
+            bool neg = rng.next() & 1;
+            a = (T)std::ldexp(neg ? -1.0 : 1.0, k);
+            long double ex2 = (long double)k * n; // exponent of two of the magnitude
+            bool odd = (((typename std::make_unsigned<E>::type)e) & 1) != 0;
+            int sign = (neg && odd) ? -1 : 1;
+            if (ex2 >= L::min_exponent - 1 && ex2 <= L::max_exponent - 1)
+            {
+                have_exact = true;
+                exact = sign * ldexpl(1.0L, (int)ex2);
+            }
+            else
+                sat = ex2 > 0 ? sign : 2;
+        }
+        else
+        {
+            int j = 3 + (int)(rng.next() % (L::digits - 4));
+            long double d = ldexpl((rng.next() & 1) ? 1.0L : -1.0L, -j);
+            a = (T)(1.0L + d);
+            if (fabsl(n) > 1048576.0L)
+                continue;
+            exact = expl(n * log1pl((long double)a - 1.0L));
+            if (!(fabsl(exact) >= (long double)L::min() * 4 && fabsl(exact) <= (long double)L::max() / 4))
+                continue;
+            have_exact = true;
+            tol = (fabsl(n) + 8) * (long double)L::epsilon();
+        }
+        mark_case("pow_wide", tname<T>(), &a, sizeof a);
+        T got = xs::pow(a, e);
+        T lane = xs::pow(B(a), e).get(0);
+        st.evals++;
+        st.cell((unsigned)(ce << 2 | mode));
+        bool ok = same_fp(got, lane);
+        if (have_exact)
+            ok = ok && fabsl((long double)got - exact) <= tol * fabsl(exact);
+        else if (sat == 2)
+            ok = ok && std::fabs(got) <= 16 * L::min();
+        else
+            ok = ok && (sat > 0 ? got >= L::max() / 16 : got <= -L::max() / 16);
+        if (!ok)
+            viol(st, "unclassified", "{\"x\":\"" + hexv(a) + "\",\"exponent\":" + std::to_string((long long)e) + ",\"exponent_type\":\"" + tname<E>() + "\",\"scalar\":\"" + hexv(got) + "\",\"batch_lane0\":\"" + hexv(lane) + "\",\"expected\":" + (have_exact ? "\"" + hexv((T)exact) + "\"" : sat == 2 ? "\"underflow towards 0\"" : sat > 0 ? "\"+overflow\"" : "\"-overflow\"") + "}");
+    }
+}
+template <class E>
+static void pow_wide_all(uint64_t s)
+{
+    pow_wide_int<int8_t, E>(s);
+    pow_wide_int<uint16_t, E>(s);
+    pow_wide_int<int32_t, E>(s);
+    pow_wide_int<uint32_t, E>(s);
+    pow_wide_int<int64_t, E>(s);
+    pow_wide_int<uint64_t, E>(s);
+    pow_wide_fp<float, E>(s);
+    pow_wide_fp<double, E>(s);
+}
+
 void vh::unit_main()
 {
     uint64_t s = ctx().seed;
+    pow_wide_all<int8_t>(s);
+    pow_wide_all<uint8_t>(s);
+    pow_wide_all<int16_t>(s);
+    pow_wide_all<uint16_t>(s);
+    pow_wide_all<int32_t>(s);
+    pow_wide_all<uint32_t>(s);
+    pow_wide_all<int64_t>(s);
+    pow_wide_all<uint64_t>(s);
     ints<int8_t>(s);
     ints<uint8_t>(s);
     ints<int16_t>(s);
